@@ -95,6 +95,49 @@ def c14 (args res : List String) : Verdict :=
                 else go rest s' (nrot + 1) (max maxPeers s'.length)
               | _ => fail (vBad out)
             | _ => fail (vBad op)
+          else if c = 't' then
+            -- one tick of the real timer handler: `t<round>/<seeder>/<k=dl:ul,…>` → `T[round'][-|=map]snap`
+            match arg.splitOn "/", out.splitOn "]" with
+            | [roundS, seedS, ratesS], [rd, m, _] =>
+              let rates : List (Nat × Option Nat × Option Nat) := if ratesS.isEmpty then [] else
+                (ratesS.splitOn ",").filterMap fun kv => match kv.splitOn "=" with
+                  | [k, v] => match k.toNat?, v.splitOn ":" with
+                    | some k, [d, u] => some (k, d.toNat?, u.toNat?)
+                    | _, _ => none
+                  | _ => none
+              let r : Rates := fun a => match rates.find? (·.1 = a) with | some e => e.2 | none => (none, none)
+              let seeder := seedS = "1"
+              let mS := String.ofList (m.toList.drop 1)
+              let implMap : Option (List (Nat × Bool)) := if mS = "-" then none else
+                some ((((String.ofList (mS.toList.drop 1)).splitOn ".").filterMap fun e => match e.splitOn ":" with
+                  | [k, b] => k.toNat?.map (·, b = "c")
+                  | _ => none))
+              match roundS.toNat? with
+              | none => fail (vBad op)
+              | some round =>
+                let round' := tickRound Rdest.Gen.MAX_OPTIMISTIC_ROUNDS round
+                if (String.ofList (rd.toList.drop 2)).toNat? ≠ some round' then fail (vDiff "tick-round" (toString round') "tick") else
+                let rate := tickRate seeder r
+                if !tickReady s r then
+                  -- the rotation is not carried out: nothing changes, nothing is broadcast
+                  if implMap.isSome || snapTok s ≠ snapStr then fail (vDiff "tick-waits-for-rates" (s!"T[{round'}][-]" ++ snapTok s) "tick")
+                  else go rest s nrot maxPeers
+                else
+                  match implMap with
+                  | none => fail (vDiff "tick-carried-out" "a broadcast" "tick")
+                  | some im =>
+                    let implNewOpt := if round' = 0 then (implSnap.filter (fun p => p.optimistic && !p.amChoked)).map (·.addr) else []
+                    if !t2Holds rate implNewOpt implSnap then fail (vProp "T2-rotation-postcondition" "tick")
+                    else if !t3Holds s implSnap im then fail (vProp "T3-map-is-not-the-set-of-changes" "tick")
+                    else
+                      let sorted := sortBy (fun (a b : CPeer) => decide (rate a.addr > rate b.addr)) s
+                      let cands := optCandidates s
+                      let picks : List (List Nat) := if cands.isEmpty then [[]] else cands.map ([·])
+                      let results := picks.filterMap fun pk => (tick Rdest.Gen.MAX_UNCHOKED Rdest.Gen.MAX_OPTIMISTIC_ROUNDS s round r sorted pk).2
+                      match results.find? (fun x => snapTok x.1 = snapStr && mapTok x.2 = mapTok im) with
+                      | some x => go rest x.1 (nrot + 1) (max maxPeers x.1.length)
+                      | none => fail (vDiff "tick-state" (match results.head? with | some x => snapTok x.1 | none => "-") "tick")
+            | _, _ => fail (vBad op)
           else
             match arg.toNat? with
             | none => fail (vBad op)
@@ -116,9 +159,10 @@ def c14 (args res : List String) : Verdict :=
     match go (opl.zip outl) [] 0 0 with
     | some v => v
     | none =>
-      let nrot := (opl.filter (·.startsWith "r")).length
+      let nrot := (opl.filter (fun o => o.startsWith "r" || o.startsWith "t")).length
       let npeers := (opl.filter (·.startsWith "a")).length
-      vOk s!"hist-rot{min nrot 3}-peers{if npeers ≤ 5 then "le5" else if npeers ≤ 10 then "le10" else "gt10"}"
+      let ticks := if opl.any (·.startsWith "t") then "-tick" else ""
+      vOk s!"hist{ticks}-rot{min nrot 3}-peers{if npeers ≤ 5 then "le5" else if npeers ≤ 10 then "le10" else "gt10"}"
   | _, _ => vBad (joinToks args)
 
 end Driver
